@@ -3,7 +3,7 @@
 From Coq Require Import List NArith ZArith Bool.
 From Coq Require Import String.
 Import ListNotations.
-From GP Require Import Generated Model.Handshake Model.Stderr Model.Env Model.MuxBroker Model.GrpcMux.
+From GP Require Import Generated Model.Handshake Model.Stderr Model.Env Model.MuxBroker Model.GrpcMux Model.Serve.
 
 Definition gen_hs_params : hs_params :=
   {| hp_core := core_protocol_version;
@@ -49,3 +49,6 @@ Definition gen_grpc_params : MuxBroker.params :=
 
 Definition gen_cmux_params : GrpcMux.cparams :=
   {| GrpcMux.registers_first := accept_registers_listener_before_knock_goroutine |}.
+
+Definition gen_sv_params : Serve.sv_params :=
+  {| Serve.svp_core := core_protocol_version; Serve.svp_fields := handshake_format_fields; Serve.svp_mux_key := env_multiplex_grpc |}.
